@@ -67,6 +67,9 @@ HInit(cfg) ==
      \* concurrent cache: every state-changing call so far was followed by sync() ("eager" use);
      \* await: such a call has not been followed by its sync() yet; nget / napplied: get calls
      \* made and read records applied (C14)
+     \* concurrent cache, C12: the recency order as maintenance has built it, from the maintenance
+     \* events alone (mrec)
+     mrec |-> <<>>,
      eager |-> TRUE, await |-> FALSE, nget |-> 0, napplied |-> 0,
      anyinv |-> FALSE]     \* C07: some invalidation call has been made
 
@@ -420,7 +423,37 @@ GrowthEvicted(hs, pre, e) ==
              n == Min(ShortestPrefix(q, W, need, 0, 0), Len(q))
          IN Range(Prefix(q, n))
 
+\* The concurrent cache beyond eager use: "with respect to the order in which maintenance applied
+\* the recorded reads and writes". That order is rebuilt from the maintenance events of every
+\* call: a read record applied to an entry that has a queue node, an admission and an applied
+\* update make the key the most recent one; a purge scan that finds an updated entry at the front
+\* moves it to the back; removals take the key out. An invalidate call takes the key out at once
+\* (its node is skipped by every walk from then on). Every capacity victim (a victim of an
+\* admission, an over-capacity eviction) must then be the least recent key of that order.
+MxStep(q, m) ==
+    CASE m.t = "read.hit" /\ m.k # -1 -> MoveToBack(q, m.k)
+      [] m.t \in {"upsert.fit", "upsert.admit"} -> Append(Without(q, m.k), m.k)
+      [] m.t \in {"upsert.update", "skip.dirty"} -> MoveToBack(q, m.k)
+      [] m.t \in {"victim.rm", "evict", "expire.ao", "expire.wo", "remove", "release.stale", "release.absent"}
+            -> Without(q, m.k)
+      [] OTHER -> q
+RECURSIVE MxFold(_, _)
+MxFold(q, mx) == IF mx = <<>> THEN q ELSE MxFold(MxStep(q, Head(mx)), Tail(mx))
+RECURSIVE MxVictimsOk(_, _)
+MxVictimsOk(q, mx) ==
+    IF mx = <<>> THEN TRUE
+    ELSE LET m == Head(mx) IN
+         \* (a victim whose key the order does not hold is the new, not yet admitted entry of a key
+         \* whose invalidated predecessor left a node behind: open finding F12, variant (b), which the
+         \* monitors of C03 / C07 judge; the order has nothing to say about it)
+         /\ (m.t \in {"victim.rm", "evict"} /\ InSeq(q, m.k)) => Head(q) = m.k
+         /\ MxVictimsOk(MxStep(q, m), Tail(mx))
+\* the order at the moment the call's maintenance (if any) starts: the call's own map access first
+MrecAtCall(hs, e) == IF e.ev = "Invalidate" THEN Without(hs.mrec, e.k) ELSE hs.mrec
+MrecApplies(hs, e) == IsSync(hs) /\ IsOp(e) /\ HasF(e, "mx")
+
 Allowed_C12(hs, pre, e) ==
+    /\ MrecApplies(hs, e) => MxVictimsOk(MrecAtCall(hs, e), e.mx)
     /\ PairUpdate(hs, e) =>
           LET h == PairHist(hs)  pe == PairEvent(hs, e)
           IN LostLive(h, hs.pend.pre, pe) \ {pe.k} = ExpectedAfterGrowth(h, hs.pend.pre, pe) \ {pe.k}
@@ -432,6 +465,7 @@ Allowed_C12(hs, pre, e) ==
           LET own == (IF e.ev = "Insert" THEN {e.k} ELSE {}) \cup Targeted(hs, e) \cup Ambiguous(hs, e)
           IN LostLive(hs, pre, e) \ own = (ExpectedEvicted(hs, pre, e) \cup GrowthEvicted(hs, pre, e)) \ own
 NT_C12(hs, pre, e) ==
+    \/ (MrecApplies(hs, e) /\ \E i \in DOMAIN e.mx : e.mx[i].t \in {"victim.rm", "evict"})
     \/ IsOp(e) /\ ~IsSync(hs) /\ (LostLive(hs, pre, e) # {} \/ ExpectedEvicted(hs, pre, e) # {}
                                    \/ GrowthEvicted(hs, pre, e) # {})
     \/ PairReady(hs, e) /\ IsContest(PairHist(hs), hs.pend.pre, PairEvent(hs, e))
@@ -628,6 +662,7 @@ HUpdate(P, hs, pre, e) ==
     IN [h1 EXCEPT !.within = IF P \cap {"C03", "C07"} # {} THEN within1 ELSE hs.within,
                   !.anyinv = IF needVis THEN (hs.anyinv \/ isInv) ELSE hs.anyinv,
                   !.rec = IF needRec THEN RecUpdate(hs, e) ELSE hs.rec,
+                  !.mrec = IF "C12" \in P /\ MrecApplies(hs, e) THEN MxFold(MrecAtCall(hs, e), e.mx) ELSE hs.mrec,
                   !.vis = IF needVis THEN vis1 ELSE hs.vis,
                   !.visnow = IF needVis THEN e.now ELSE hs.visnow,
                   !.inv = IF needVis THEN inv1 ELSE hs.inv,
